@@ -250,6 +250,40 @@ impl WorldSpec {
         out
     }
 
+    fn poison_rec(&self, t: &TSpec, root: Option<usize>, node_path: &mut Vec<u8>, out: &mut Vec<PoisonId>) {
+        match t {
+            TSpec::Leaf(l) => (0..self.leaves[*l].layers()).for_each(|d| out.push(PoisonId::Leaf(*l, d))),
+            TSpec::Unit(u) => {
+                for l in &self.units[*u].leaves {
+                    (0..self.leaves[*l].layers()).for_each(|d| out.push(PoisonId::Leaf(*l, d)));
+                }
+            }
+            TSpec::Coll { members, poison, .. } => {
+                if *poison {
+                    out.push(match root {
+                        Some(r) => PoisonId::Coll(r, node_path.clone()),
+                        None => PoisonId::Private(node_path.clone()),
+                    });
+                }
+                for (i, m) in members.iter().enumerate() {
+                    node_path.push(i as u8);
+                    self.poison_rec(m, root, node_path, out);
+                    node_path.pop();
+                }
+            }
+            TSpec::Shared(i) => self.poison_rec(&self.targets[*i], Some(*i), &mut Vec::new(), out),
+        }
+    }
+
+    /// every Poisonable (leaf layers and collection wrappers) that a hold on `t` covers
+    pub fn poison_ids(&self, t: &TSpec, root: Option<usize>) -> Vec<PoisonId> {
+        let mut out = Vec::new();
+        self.poison_rec(t, root, &mut Vec::new(), &mut out);
+        out.sort();
+        out.dedup();
+        out
+    }
+
     fn elems_rec(&self, t: &TSpec, out: &mut Vec<Elem>) {
         match t {
             TSpec::Leaf(l) => out.push(Elem::Leaf(*l)),
